@@ -1,4 +1,4 @@
--- GENERATED from /tmp/wt_c12s by checks/ on every run. Do not edit.
+-- GENERATED from /repo by checks/ on every run. Do not edit.
 import TbbVerif.Core.Cint
 import TbbVerif.Model.C12F32
 namespace TbbVerif.Generated.C12
@@ -54,10 +54,8 @@ def insertDummyNodeSkeleton : List String := ["(parent_dummy_node, order_key)",
   "destroy_node(dummy_node)",
   "return next_node",
   "}",
-  "if (try_insert(prev_node, dummy_node, next_node)) break",
-  "prev_node = &my_head",
   "}",
-  "while (true)",
+  "while (!try_insert(prev_node, dummy_node, next_node))",
   "return dummy_node"]
 def tryInsertSkeleton : List String := ["(prev_node, new_node, current_next_node)",
   "new_node->set_next(current_next_node)",
